@@ -91,10 +91,15 @@ def single(spec, case, exe, work):
 
 
 def check(spec, tier, seed, replay=None):
+    return check_parts(spec.pid, [spec], tier, seed, replay, main=spec)
+
+
+def check_parts(pid, parts, tier, seed, replay=None, main=None):
+    """Generic flow for one property decided over one or more components
+    (`parts`: Spec instances; their oracles/generators are used as they are,
+    the proof audit is the one of Properties_<pid>.v)."""
     t0 = time.time()
-    pid = spec.pid
-    work = os.path.join(core.BUILD, 'work', pid)
-    os.makedirs(work, exist_ok=True)
+    main = main or parts[0]
     violations = []      # (replay_path, text, found_input)
     known_hits = []
     notes = []
@@ -114,127 +119,162 @@ def check(spec, tier, seed, replay=None):
     if not okr:
         print(logr[-3000:])
         notes.append('runner build failed')
-    drivers = []
-    variants = [dict(ndebug=True, tag='')]
-    if tier == 'thorough':
-        variants.append(dict(ndebug=False, tag='_assert'))
-    for v in variants:
-        exe, logd = core.build_driver(spec.driver, spec.lib_srcs, spec.driver_extra, v['ndebug'], v['tag'])
-        if exe is None:
-            # the tree does not compile with our driver: report, cannot decide
-            rp = core.replay_path(pid, 0)
-            with open(rp, 'w') as f:
-                f.write('driver build failed against %s\n%s\n' % (core.REPO, logd[-4000:]))
-            print(logd[-2000:])
-            print('VIOLATION property=%s replay=%s no-failing-input-found' % (pid, rp))
-            finish(spec, tier, seed, t0, proof, bad, {}, 1, notes + ['driver build failed'])
-            return 1
-        drivers.append(exe)
 
-    # 3. cases
+    replay_part = None
+    replay_cases = None
     if replay:
-        cases = core.parse_script(open(replay).read(), origin='replay')
-        core.split_header(cases, spec.header_words)
-        clo_stats = {}
-    else:
-        cases = spec.corpus()
-        clo, clo_stats = spec.closure(tier)
-        cases += clo
-        cases += spec.random_cases(tier, seed)
-    # unique names
-    for i, c in enumerate(cases):
-        c.name = '%s_%d' % (c.name, i)
-
-    model, impls = run_pair(spec, cases, drivers, work) if okr else ({}, [{} for _ in drivers])
-
-    # 4. compare + oracle
-    mism = []
-    oracle_hits = {}
-    skipped = 0
-    nontrivial = set()
-    hist = {}
-    for c in cases:
-        m = model.get(c.name, ['<no model output>'])
-        if m and m[-1] == 'precond':
-            skipped += 1
-            continue
-        for o in c.ops:
-            w = o.split()[0]
-            hist[w] = hist.get(w, 0) + 1
-        if spec.nontrivial(c, m):
-            nontrivial.add(c.key())
-        for di, impl in enumerate(impls):
-            im = impl.get(c.name, ['<no impl output>'])
-            d = core.first_diff(m, im)
-            if d is not None:
-                mism.append((c, di, d))
-            r = spec.oracle(c, im)
-            if r is not None:
-                oracle_hits.setdefault(r[0], []).append((c, di, r[1]))
+        txt = open(replay).read()
+        for line in txt.splitlines():
+            if line.startswith('# part:'):
+                replay_part = line.split(':', 1)[1].strip()
+        replay_cases = txt
 
     known = dict(core.load_known(pid))
     nrep = 0
-    # 4a. property violations found on the implementation
-    for key, hits in sorted(oracle_hits.items()):
-        if key in known:
-            known_hits.append((key, known[key], len(hits)))
+    tot = dict(evaluations=0, skipped=0, mism=0, states=0, transitions=0, closed=True, have_closure=False)
+    nontrivial = set()
+    hist = {}
+    oracle_counts = {}
+    samples = []
+    drivers_used = []
+    for spec in parts:
+        if replay_part and spec.component != replay_part:
             continue
-        c, di, msg = min(hits, key=lambda h: len(h[0].ops))
-        exe = drivers[di]
+        work = os.path.join(core.BUILD, 'work', pid, spec.component)
+        os.makedirs(work, exist_ok=True)
+        drivers = []
+        variants = [dict(ndebug=True, tag='')]
+        if tier == 'thorough' and getattr(spec, 'assert_variant', True):
+            variants.append(dict(ndebug=False, tag='_assert'))
+        failed = False
+        for v in variants:
+            exe, logd = core.build_driver(spec.driver, spec.lib_srcs, spec.driver_extra, v['ndebug'], v['tag'])
+            if exe is None:
+                rp = core.replay_path(pid, nrep)
+                nrep += 1
+                with open(rp, 'w') as f:
+                    f.write('driver drv_%s failed to build against %s\n%s\n' % (spec.driver, core.REPO, logd[-4000:]))
+                print(logd[-2000:])
+                violations.append((rp, 'driver drv_%s does not build against the tree' % spec.driver, False))
+                notes.append('driver build failed: ' + spec.driver)
+                failed = True
+                break
+            drivers.append(exe)
+        if failed:
+            continue
+        drivers_used += [os.path.basename(d) for d in drivers]
 
-        def still(ops, _c=c, _exe=exe, _key=key):
-            cc = Case('x', _c.header, ops)
-            _, im = single(spec, cc, _exe, work)
+        # 3. cases
+        if replay_cases is not None:
+            cases = core.parse_script(replay_cases, origin='replay')
+            core.split_header(cases, spec.header_words)
+            clo_stats = {}
+        else:
+            cases = spec.corpus()
+            clo, clo_stats = spec.closure(tier)
+            cases += clo
+            cases += spec.random_cases(tier, seed)
+        for i, c in enumerate(cases):
+            c.name = '%s_%d' % (c.name, i)
+        if clo_stats:
+            tot['have_closure'] = True
+            tot['states'] += clo_stats.get('states', 0)
+            tot['transitions'] += clo_stats.get('transitions', 0)
+            tot['closed'] = tot['closed'] and bool(clo_stats.get('closed', False))
+
+        model, impls = run_pair(spec, cases, drivers, work) if okr else ({}, [{} for _ in drivers])
+
+        # 4. compare + oracle
+        mism = []
+        oracle_hits = {}
+        for c in cases:
+            m = model.get(c.name, ['<no model output>'])
+            if m and m[-1] == 'precond':
+                tot['skipped'] += 1
+                continue
+            tot['evaluations'] += 1
+            for o in c.ops:
+                w = spec.component + '.' + o.split()[0] if len(parts) > 1 else o.split()[0]
+                hist[w] = hist.get(w, 0) + 1
+            if spec.nontrivial(c, m):
+                nontrivial.add(spec.component + c.key())
+            for di, impl in enumerate(impls):
+                im = impl.get(c.name, ['<no impl output>'])
+                d = core.first_diff(m, im)
+                if d is not None:
+                    mism.append((c, di, d))
+                r = spec.oracle(c, im)
+                if r is not None:
+                    oracle_hits.setdefault(r[0], []).append((c, di, r[1]))
+        tot['mism'] += len(mism)
+        if cases:
+            samples += [c.text().split('\n') for c in (cases[:1] + cases[len(cases) // 2:len(cases) // 2 + 1])]
+
+        # 4a. property violations found on the implementation
+        for key, hits in sorted(oracle_hits.items()):
+            oracle_counts[spec.component + ':' + key] = len(hits)
+            if key in known:
+                known_hits.append((key, known[key], len(hits)))
+                continue
+            c, di, msg = min(hits, key=lambda h: len(h[0].ops))
+            exe = drivers[di]
+
+            def still(ops, _c=c, _exe=exe, _key=key, _spec=spec, _work=work):
+                cc = Case('x', _c.header, ops)
+                _, im = single(_spec, cc, _exe, _work)
+                r = _spec.oracle(cc, im)
+                return r is not None and r[0] == _key
+            small = core.ddmin(c.ops, still) if len(c.ops) > 1 else c.ops
+            cc = Case('violation', c.header, small)
+            mm, im = single(spec, cc, exe, work)
             r = spec.oracle(cc, im)
-            return r is not None and r[0] == _key
-        small = core.ddmin(c.ops, still) if len(c.ops) > 1 else c.ops
-        cc = Case('violation', c.header, small)
-        mm, im = single(spec, cc, exe, work)
-        rp = core.replay_path(pid, nrep)
-        nrep += 1
-        with open(rp, 'w') as f:
-            f.write('# property %s violated on the implementation (%s)\n# oracle: %s\n# key: %s\n' % (
-                pid, os.path.basename(exe), spec.oracle(cc, im)[1], key))
-            f.write('# replay: ./check %s --replay %s\n' % (pid, rp))
-            f.write(cc.text())
-            f.write('# implementation trace:\n' + ''.join('#   %s\n' % l for l in im))
-            f.write('# model trace:\n' + ''.join('#   %s\n' % l for l in mm))
-        violations.append((rp, msg, True))
-    # 4b. correspondence breaks not explained by an oracle hit
-    explained = set()
-    for key, hits in oracle_hits.items():
-        for c, di, _ in hits:
-            explained.add((c.name, di))
-    unexplained = [(c, di, d) for (c, di, d) in mism if (c.name, di) not in explained]
-    if unexplained and not (oracle_hits and all(k not in known for k in oracle_hits) and False):
-        c, di, d = min(unexplained, key=lambda h: len(h[0].ops))
-        exe = drivers[di]
+            rp = core.replay_path(pid, nrep)
+            nrep += 1
+            with open(rp, 'w') as f:
+                f.write('# property %s violated on the implementation (%s)\n# oracle: %s\n# key: %s\n' % (
+                    pid, os.path.basename(exe), r[1] if r else msg, key))
+                f.write('# part: %s\n' % spec.component)
+                f.write('# replay: ./check %s --replay %s\n' % (pid, rp))
+                f.write(cc.text())
+                f.write('# implementation trace:\n' + ''.join('#   %s\n' % l for l in im))
+                f.write('# model trace:\n' + ''.join('#   %s\n' % l for l in mm))
+            violations.append((rp, msg, True))
+        # 4b. correspondence breaks not explained by an oracle hit
+        explained = set()
+        for key, hits in oracle_hits.items():
+            for c, di, _ in hits:
+                explained.add((c.name, di))
+        unexplained = [(c, di, d) for (c, di, d) in mism if (c.name, di) not in explained]
+        if unexplained:
+            c, di, d = min(unexplained, key=lambda h: len(h[0].ops))
+            exe = drivers[di]
 
-        def still2(ops, _c=c, _exe=exe):
-            cc = Case('x', _c.header, ops)
-            mm, im = single(spec, cc, _exe, work)
-            if mm and mm[-1] == 'precond':
-                return False
-            return core.first_diff(mm, im) is not None
-        small = core.ddmin(c.ops, still2) if len(c.ops) > 1 else c.ops
-        cc = Case('correspondence', c.header, small)
-        mm, im = single(spec, cc, exe, work)
-        r = spec.oracle(cc, im)
-        rp = core.replay_path(pid, nrep)
-        nrep += 1
-        with open(rp, 'w') as f:
-            f.write('# correspondence between the Coq model (%s, theorems of Properties_%s.v) and %s no longer checks\n' % (
-                spec.component, pid, os.path.basename(exe)))
-            f.write('# %d of %d cases differ; smallest after shrinking below. first difference at line %s:\n#   model: %s\n#   impl : %s\n' % (
-                len(unexplained), len(cases), core.first_diff(mm, im)))
-            f.write('# the property oracle found no input on which the implementation itself violates %s\n' % pid)
-            f.write('# replay: ./check %s --replay %s\n' % (pid, rp))
-            f.write(cc.text())
-            f.write('# implementation trace:\n' + ''.join('#   %s\n' % l for l in im))
-            f.write('# model trace:\n' + ''.join('#   %s\n' % l for l in mm))
-        violations.append((rp, 'model/implementation correspondence broken', False))
+            def still2(ops, _c=c, _exe=exe, _spec=spec, _work=work):
+                cc = Case('x', _c.header, ops)
+                mm, im = single(_spec, cc, _exe, _work)
+                if mm and mm[-1] == 'precond':
+                    return False
+                return core.first_diff(mm, im) is not None
+            small = core.ddmin(c.ops, still2) if len(c.ops) > 1 else c.ops
+            cc = Case('correspondence', c.header, small)
+            mm, im = single(spec, cc, exe, work)
+            rp = core.replay_path(pid, nrep)
+            nrep += 1
+            with open(rp, 'w') as f:
+                f.write('# correspondence between the Coq model (%s, theorems of Properties_%s.v) and %s no longer checks\n' % (
+                    spec.component, pid, os.path.basename(exe)))
+                f.write('# %d of %d cases differ; smallest after shrinking below. first difference (line, model, impl): %s\n' % (
+                    len(unexplained), len(cases), (core.first_diff(mm, im),)))
+                f.write('# the property oracle found no input on which the implementation itself violates %s\n' % pid)
+                f.write('# part: %s\n' % spec.component)
+                f.write('# replay: ./check %s --replay %s\n' % (pid, rp))
+                f.write(cc.text())
+                f.write('# implementation trace:\n' + ''.join('#   %s\n' % l for l in im))
+                f.write('# model trace:\n' + ''.join('#   %s\n' % l for l in mm))
+            violations.append((rp, 'model/implementation correspondence broken (%s)' % spec.component, False))
+
     # 4c. proofs broken
-    if (not proof_ok or not okr) and not violations:
+    if (not proof_ok or not okr) and not any(v[2] for v in violations):
         rp = core.replay_path(pid, nrep)
         with open(rp, 'w') as f:
             f.write('# proof obligations of Properties_%s.v no longer check\n# %s\n' % (pid, '; '.join(notes)))
@@ -248,27 +288,28 @@ def check(spec, tier, seed, replay=None):
         print('VIOLATION property=%s replay=%s%s' % (pid, rp, '' if found else ' no-failing-input-found'))
 
     cov = dict(
-        evaluations=len(cases) - skipped,
+        evaluations=tot['evaluations'],
         distinct_nontrivial=len(nontrivial),
-        skipped_outside_domain=skipped,
-        mismatching_cases=len(mism),
-        oracle_violations={k: len(v) for k, v in oracle_hits.items()},
+        skipped_outside_domain=tot['skipped'],
+        mismatching_cases=tot['mism'],
+        oracle_violations=oracle_counts,
         op_histogram=hist,
-        drivers=[os.path.basename(d) for d in drivers],
-        samples=[c.text().split('\n') for c in (cases[:1] + cases[len(cases) // 2:len(cases) // 2 + 1] + cases[-1:])],
+        drivers=drivers_used,
+        components=[s.component for s in parts],
+        samples=samples[:6],
     )
-    cov.update({('closure_' + k): v for k, v in clo_stats.items()})
-    if clo_stats:
-        cov['states'] = clo_stats.get('states', 0)
-        cov['transitions'] = clo_stats.get('transitions', 0)
-        cov['traces_validated_against_impl'] = len(cases) - skipped
-        cov['exhaustive'] = bool(clo_stats.get('closed', False))
+    if tot['have_closure']:
+        cov['states'] = tot['states']
+        cov['transitions'] = tot['transitions']
+        cov['traces_validated_against_impl'] = tot['evaluations']
+        cov['exhaustive'] = bool(tot['closed'])
     rc = 1 if violations else 0
-    finish(spec, tier, seed, t0, proof, bad, cov, len(violations), notes, known_hits)
+    finish(main, tier, seed, t0, proof, bad, cov, len(violations), notes, known_hits, pid=pid)
     return rc
 
 
-def finish(spec, tier, seed, t0, proof, bad, cov, nviol, notes, known_hits=()):
+def finish(spec, tier, seed, t0, proof, bad, cov, nviol, notes, known_hits=(), pid=None):
+    pid = pid or spec.pid
     cov = dict(cov)
     cov.setdefault('evaluations', 0)
     cov.setdefault('distinct_nontrivial', 0)
@@ -288,6 +329,6 @@ def finish(spec, tier, seed, t0, proof, bad, cov, nviol, notes, known_hits=()):
     ] + list(spec.trusted)
     cov['notes'] = notes
     cov['known_findings_hit'] = [k for k, _, _ in known_hits]
-    ev = dict(property_id=spec.pid, tier=tier, seed=seed, level='proof', coverage=cov,
+    ev = dict(property_id=pid, tier=tier, seed=seed, level='proof', coverage=cov,
               assumptions=list(spec.assumptions_text), wall_s=round(time.time() - t0, 2), violations=nviol)
-    core.write_evidence(spec.pid, ev)
+    core.write_evidence(pid, ev)
